@@ -83,7 +83,7 @@ def errBody (rq : ReqFacts) (msg err : Bytes) : Bytes := rq.name ++ [32] ++ msg 
 theorem modifyResponse_errorResponse (rq : ReqFacts) (st : Nat) (msg err : Bytes)
     (hr : rq.rules = [] ∨ rq.isConnect = true) :
     modifyResponse rq (errorResponse rq st msg err) =
-      { status := st, minor := rq.minor, header := [(xfeName, [rq.name ++ [32] ++ err]), (ctName, [ctValue])],
+      { status := st, minor := respMinor rq, header := [(xfeName, [rq.name ++ [32] ++ err]), (ctName, [ctValue])],
         body := errBody rq msg err, contentLength := (errBody rq msg err).length, close := rq.close } := by
   have h0 : (if rq.isConnect then (errorResponse rq st msg err).header
       else applyRules rq.rules (errorResponse rq st msg err).header) = (errorResponse rq st msg err).header := by
@@ -113,7 +113,7 @@ theorem writeResponse_error (closing : Bool) (st mi cl : Nat) (bd x : Bytes) (c 
 theorem writtenError_eq (closing : Bool) (rq : ReqFacts) (st : Nat) (msg err : Bytes)
     (hr : rq.rules = [] ∨ rq.isConnect = true) :
     writtenError closing rq st msg err =
-      { minor := rq.minor, status := st,
+      { minor := respMinor rq, status := st,
         fields := (bs "content-length", [natToDec (errBody rq msg err).length]) ::
           (lower xfeName, [rq.name ++ [32] ++ err]) :: (lower ctName, [ctValue]) ::
           (if closing || rq.close then [(lower connName, [bs "close"])] else []),
@@ -527,6 +527,62 @@ theorem modified_relay_vals (rq : ReqFacts) (st : Nat) (up : HMap) (body : Bytes
     rw [vals_removeHopByHop _ _ (List.perm_nil.1 p2) hx]
     exact p1
 
+/-! ## §1b′ the ordered handler list -/
+
+/-- a handler of the list that claims the error makes the list claim it -/
+theorem firstVerdict_ne_zero {hs : List Handler} {h : Handler} (hm : h ∈ hs) {https : Bool} {e : ErrShape}
+    (hn : (h https e).1 ≠ 0) : (firstVerdict hs https e).1 ≠ 0 := by
+  induction hs with
+  | nil => simp at hm
+  | cons h' hs ih =>
+    simp only [firstVerdict]
+    by_cases h0 : (h' https e).1 = 0
+    · have hm' : h ∈ hs := by
+        rcases List.mem_cons.mp hm with rfl | hm'
+        · exact absurd h0 hn
+        · exact hm'
+      simp only [h0, bne_self_eq_false, Bool.false_eq_true, if_false]
+      exact ih hm'
+    · simp [h0]
+
+/-- the verdict of the list is the verdict of one of its handlers (or nobody's) -/
+theorem firstVerdict_mem (hs : List Handler) (https : Bool) (e : ErrShape) :
+    firstVerdict hs https e = pass ∨ ∃ h ∈ hs, firstVerdict hs https e = h https e := by
+  induction hs with
+  | nil => exact Or.inl rfl
+  | cons h' hs ih =>
+    simp only [firstVerdict]
+    by_cases h0 : (h' https e).1 = 0
+    · simp only [h0, bne_self_eq_false, Bool.false_eq_true, if_false]
+      rcases ih with hp | ⟨h, hm, he⟩
+      · exact Or.inl hp
+      · exact Or.inr ⟨h, List.mem_cons_of_mem _ hm, he⟩
+    · refine Or.inr ⟨h', List.mem_cons_self, ?_⟩
+      simp [h0]
+
+/-- no handler of `errorResponse` uses the label of the fallback -/
+theorem handlers_label (h : Handler) (hm : h ∈ handlers) (https : Bool) (e : ErrShape) :
+    (h https e).2 ≠ "unexpected_error" := by
+  simp only [handlers, List.mem_cons, List.not_mem_nil, or_false] at hm
+  rcases hm with rfl | rfl | rfl | rfl | rfl | rfl | rfl | rfl | rfl | rfl | rfl | rfl | rfl | rfl
+  · simp only [handleWindowsNetError, pass]; decide
+  · unfold handleNetError
+    rcases e.opError with _ | ⟨o, t⟩
+    · decide
+    · cases o <;> cases t <;> decide
+  · unfold handleTLSRecordHeader; split <;> decide
+  · unfold handleTLSCertificateError; split <;> decide
+  · unfold handleTLSECHRejectionError; split <;> decide
+  · unfold handleTLSAlertError; split <;> decide
+  · unfold handleMartianErrorStatus; split <;> simp only [pass] <;> decide
+  · unfold handleAuthenticationError; split <;> decide
+  · unfold handleDenyError; split <;> decide
+  · unfold handleProhibitedError; split <;> decide
+  · unfold handleContextCancelationError; split <;> decide
+  · unfold handleStatusText; (repeat' split) <;> simp only [pass] <;> decide
+  · unfold handleTimeoutError; split <;> decide
+  · unfold handleEOFError; split <;> decide
+
 /-! ## §1c the shapes `clientStream` takes -/
 
 theorem errorObs_generated (ex : Exchange) (k : ErrKind) (h : ∀ s, k ≠ .connectRejected s) :
@@ -536,12 +592,21 @@ theorem errorObs_generated (ex : Exchange) (k : ErrKind) (h : ∀ s, k ≠ .conn
 theorem errorObs_relay (ex : Exchange) (s : Nat) :
     errorObs ex (.connectRejected s) = .relayedRejection ex.id s true (!ex.reqClose) := rfl
 
-theorem cutErr_upstream (k : Nat) (r sf : Bool) :
-    upstreamKind (cutErr k r sf) = true ∧ ∀ s, cutErr k r sf ≠ .connectRejected s := by
+theorem cutErr_upstream (k : Nat) (r sf e : Bool) :
+    upstreamKind (cutErr k r sf e) = true ∧ ∀ s, cutErr k r sf e ≠ .connectRejected s := by
   unfold cutErr
   constructor
-  · split <;> split <;> rfl
-  · intro s; split <;> split <;> simp
+  · split
+    · split <;> rfl
+    · split
+      · rfl
+      · split <;> rfl
+  · intro s
+    split
+    · split <;> simp
+    · split
+      · simp
+      · split <;> simp
 
 theorem dialErr_upstream (ex : Exchange) (t : Bool) :
     upstreamKind (dialErr ex t) = true ∧ ∀ s, dialErr ex t ≠ .connectRejected s := by
@@ -596,9 +661,9 @@ theorem faultErr_kind (f : Fault) (ex : Exchange) (k : ErrKind) (h : faultErr f 
           refine Or.inr ⟨s, rfl, ?_⟩
           simp only [transportConnectRejection, huc, Bool.true_and]
           simpa [bne] using hk
-      | cut k r sf =>
+      | cut k r sf e =>
         simp only [Option.some.injEq] at h; subst h
-        exact Or.inl (cutErr_upstream k r sf)
+        exact Or.inl (cutErr_upstream k r sf e)
       | malformed => simp only [Option.some.injEq] at h; subst h; exact Or.inl ⟨rfl, by simp⟩
       | timeout =>
         simp only [Option.some.injEq] at h; subst h
@@ -606,11 +671,11 @@ theorem faultErr_kind (f : Fault) (ex : Exchange) (k : ErrKind) (h : faultErr f 
         · exact Or.inl ⟨rfl, by simp⟩
         · exact Or.inl ⟨rfl, by simp⟩
     · simp at h
-  | headCut k r sf =>
+  | headCut k r sf e =>
     simp only [faultErr] at h
     split at h
     · simp at h
-    · simp only [Option.some.injEq] at h; subst h; exact Or.inl (cutErr_upstream k r sf)
+    · simp only [Option.some.injEq] at h; subst h; exact Or.inl (cutErr_upstream k r sf e)
   | headMalformed =>
     simp only [faultErr] at h
     split at h
